@@ -88,6 +88,7 @@ def load_registry():
             h.solver = kv.get("solver", "minisat")
             h.args = [a for a in kv.get("args", "").split(",") if a]
             h.recbound = int(kv.get("recbound", "0"))
+            h.cfg = [c for c in kv.get("cfg", "").split(",") if c]
             reg.append(h)
     return reg
 
@@ -207,7 +208,7 @@ def run_kani(crate, scratch, h, prop, extra_args=(), tag="", extra_cfg=(), timeo
     solvers = ["minisat", "cadical"] if solver == "portfolio" else [solver]
     env = dict(os.environ)
     tier_cfg = ["vp_full_probe"] if os.environ.get("VERIF_TIER_EFFECTIVE") == "thorough" else []
-    env["RUSTFLAGS"] = " ".join(["--cfg", prop] + ["--cfg %s" % c for c in list(extra_cfg) + tier_cfg] + ["-A", "warnings"])
+    env["RUSTFLAGS"] = " ".join(["--cfg", prop] + ["--cfg %s" % c for c in list(extra_cfg) + tier_cfg + list(getattr(h, "cfg", []))] + ["-A", "warnings"])
     env["CARGO_NET_OFFLINE"] = "true"
     env["VERIF_TAB"] = str(int(os.environ.get("VERIF_SEED", "0") or 0) % 15)
     timeout = h.timeout * timeout_factor * (3 if os.environ.get("VERIF_SLOW") else 1)
@@ -553,13 +554,16 @@ def check_property(prop, tier, seed):
     return rc
 
 
-def validate_model():
+def validate_model(model16=False):
     """Differential validation of the hashbrown contract model against the real
     crate (native, a few seconds). Returns (ok, summary line)."""
     d = VERIF / "model" / "validate"
     env = dict(os.environ)
     env["CARGO_NET_OFFLINE"] = "true"
     env.pop("RUSTFLAGS", None)
+    if model16:
+        env["RUSTFLAGS"] = "--cfg model16"
+        env["CARGO_TARGET_DIR"] = str(d / "target" / "m16")
     try:
         p = subprocess.run(["cargo", "run", "--release", "-q", "--offline", "--", "3"], cwd=d, env=env, stdout=subprocess.PIPE, stderr=subprocess.STDOUT, text=True, timeout=900)
     except subprocess.TimeoutExpired:
@@ -574,6 +578,9 @@ MODEL_INFO = {"line": "not run"}
 def _check_property(prop, tier, seed, sel, scratch, t_start):
     if any(h.module != "memsize" for h in sel):
         ok, line = validate_model()
+        if ok and any(getattr(h, "cfg", []) for h in sel):
+            ok, line2 = validate_model(model16=True)
+            line = line + " | 16-bucket configuration: " + line2
         MODEL_INFO["line"] = line
         log("  stub validation: " + line)
         if not ok:
